@@ -85,3 +85,25 @@ package lightning
 //@   calls (*CLNClient).Post asserts @feelimit [C02] typeis(unbox(body, mapof(string, any))["maxfee"], uint64) && unbox(unbox(body, mapof(string, any))["maxfee"], uint64) == (maxFee * 1000) % 18446744073709551616
 //@   calls (*CLNClient).Post asserts @partial [C02] typeis(unbox(body, mapof(string, any))["partial_msat"], uint64) && unbox(unbox(body, mapof(string, any))["partial_msat"], uint64) == amountMsat
 //@   calls (*CLNClient).Post asserts @invoice [C02] typeis(unbox(body, mapof(string, any))["bolt11"], string) && unbox(unbox(body, mapof(string, any))["bolt11"], string) == request
+
+// ---- the LND adapter's outcome mapping (C05): a definitive outcome is reported only from the node's own final
+// answer; everything reported without it is an error or PENDING
+//@ func (*LndClient).OutgoingPaymentStatus
+//@   tags C05
+//@   ensures @succeeded [C05] r1 == nil && r0.PaymentStatus == Succeeded ==> payment.Status == lnrpc.Payment_SUCCEEDED && r0.Preimage == payment.PaymentPreimage
+//@   ensures @failed [C05] r1 == nil && r0.PaymentStatus == Failed ==> (payment.Status == lnrpc.Payment_FAILED || payment.Status == lnrpc.Payment_UNKNOWN)
+
+//@ func (*LndClient).SendPayment
+//@   ensures @failedhaserr [C05] r0.PaymentStatus == Failed ==> r1 != nil
+//@   ensures @succeeded [C05] r1 == nil && r0.PaymentStatus == Succeeded ==> len(sendPaymentResponse.PaymentError) == 0
+
+// ---- the CLN adapter's outcome mapping (C05): success only for a listed payment with status "complete" (with its
+// preimage), definitive failure without error only for status "failed"; everything else is an error or PENDING
+//@ func (*CLNClient).OutgoingPaymentStatus
+//@   tags C05
+//@   ensures @succeeded [C05] r1 == nil && r0.PaymentStatus == Succeeded ==> payment.Status == "complete" && r0.Preimage == payment.PaymentPreimage
+//@   ensures @failed [C05] r1 == nil && r0.PaymentStatus == Failed ==> payment.Status == "failed"
+
+//@ func (*CLNClient).SendPayment
+//@   ensures @succeeded [C05] r1 == nil && r0.PaymentStatus == Succeeded ==> response.Status == "complete" && r0.Preimage == response.Preimage
+//@   ensures @failed [C05] r1 == nil && r0.PaymentStatus == Failed ==> response.Status == "failed"
